@@ -47,3 +47,7 @@ Definition R_whole (b : bytes) : option bytes :=
   | Ok (out, _, []) => Some out
   | _ => None
   end.
+
+(* instances for extraction (correspondence run on incompressible data) *)
+Definition Sk_new : kstate sst := @k_new sst store_new.
+Definition Skstep := kstep sst store_begin store_chunk.
